@@ -2,10 +2,52 @@ package main
 
 var registry = map[string]CheckSpec{}
 
-func q(maxPaths int) *Tier { return &Tier{MaxPaths: maxPaths} }
+func tier(params map[string]int) *Tier { return &Tier{Params: params} }
 
 func init() {
 	registry["SMOKE"] = CheckSpec{Property: "SMOKE", Harnesses: []HarnessSpec{
-		{Pkg: "internal/tools/bitmask", Func: "ZZ_Smoke", Quick: q(0)},
+		{Pkg: "internal/tools/bitmask", Func: "ZZ_Smoke", Quick: tier(nil)},
 	}}
+
+	bm := "internal/tools/bitmask"
+	w2, w3 := map[string]int{"words": 2}, map[string]int{"words": 3}
+	r2, r3 := map[string]int{"runs": 2}, map[string]int{"runs": 3}
+	registry["C17"] = CheckSpec{Property: "C17",
+		Harnesses: []HarnessSpec{
+			{Pkg: bm, Func: "ZZ_C17_Long_IsSet", Quick: tier(w3), Thorough: tier(map[string]int{"words": 4}), Bounds: "0..words symbolic 64-bit words, fresh 64-bit q"},
+			{Pkg: bm, Func: "ZZ_C17_Long_Point", Quick: tier(w2), Thorough: tier(w3), Bounds: "Set/Unset/Flip(p), p < 64*(words+2)"},
+			{Pkg: bm, Func: "ZZ_C17_Long_Binary", Quick: tier(w2), Thorough: tier(w3), Bounds: "Or/And/Xor/Sub and Copy variants, operands 0..words words each"},
+			{Pkg: bm, Func: "ZZ_C17_Long_Observers", Quick: tier(w2), Thorough: tier(w3)},
+			{Pkg: bm, Func: "ZZ_C17_Long_Next", Quick: tier(w2), Thorough: tier(w3)},
+			{Pkg: bm, Func: "ZZ_C17_Long_OnesCount", Quick: tier(w3), Thorough: tier(map[string]int{"words": 4})},
+			{Pkg: bm, Func: "ZZ_C17_OnesCount_Bit", Quick: tier(nil), Bounds: "one word, positions 0,1,31,32,62,63"},
+			{Pkg: bm, Func: "ZZ_C17_Long_Equal", Quick: tier(w2), Thorough: tier(w3)},
+			{Pkg: bm, Func: "ZZ_C17_Long_Inject", Quick: tier(w2), Thorough: tier(w3), Bounds: "Inject(p,v) recursion through all words"},
+			{Pkg: bm, Func: "ZZ_C17_Short_IsSet", Quick: tier(w3), Thorough: tier(map[string]int{"words": 4})},
+			{Pkg: bm, Func: "ZZ_C17_Short_Point", Quick: tier(w2), Thorough: tier(w3)},
+			{Pkg: bm, Func: "ZZ_C17_Short_Binary", Quick: tier(w2), Thorough: tier(w3)},
+			{Pkg: bm, Func: "ZZ_C17_Short_Observers", Quick: tier(w2), Thorough: tier(w3)},
+			{Pkg: bm, Func: "ZZ_C17_Short_OnesCount", Quick: tier(w3), Thorough: tier(map[string]int{"words": 4})},
+			{Pkg: bm, Func: "ZZ_C17_Short_Equal", Quick: tier(w2), Thorough: tier(w3)},
+			{Pkg: bm, Func: "ZZ_C17_Short_InjectExtract", Quick: tier(w2), Thorough: tier(w3)},
+			{Pkg: bm, Func: "ZZ_C17_Conn_IsSet", Solver: "cvc5", Quick: tier(r3), Thorough: tier(map[string]int{"runs": 4})},
+			{Pkg: bm, Func: "ZZ_C17_Conn_Point", Solver: "cvc5", Quick: tier(r2), Thorough: tier(r3), Bounds: "0..runs valid runs (sorted, disjoint, not touching, < 2^62), Set/Unset/Flip"},
+			{Pkg: bm, Func: "ZZ_C17_Conn_Or", Solver: "cvc5", Quick: tier(r2), Thorough: tier(r3)},
+			{Pkg: bm, Func: "ZZ_C17_Conn_And", Solver: "cvc5", Quick: tier(r2), Thorough: tier(r3)},
+			{Pkg: bm, Func: "ZZ_C17_Conn_Xor", Solver: "cvc5", Quick: tier(r2), Thorough: tier(r3)},
+			{Pkg: bm, Func: "ZZ_C17_Conn_XorThenExtract", Solver: "cvc5", Quick: tier(map[string]int{"runs": 1}), Thorough: tier(r2), Bounds: "two steps: XorCopy then Equal/Extract, observable results only"},
+			{Pkg: bm, Func: "ZZ_C17_Conn_Sub", Solver: "cvc5", Quick: tier(r2), Thorough: tier(r3)},
+			{Pkg: bm, Func: "ZZ_C17_Conn_EqualCopy", Solver: "cvc5", Quick: tier(r2), Thorough: tier(r3)},
+			{Pkg: bm, Func: "ZZ_C17_Conn_Inject", Solver: "cvc5", Quick: tier(r2), Thorough: tier(r3)},
+			{Pkg: bm, Func: "ZZ_C17_Conn_Extract", Solver: "cvc5", Quick: tier(r2), Thorough: tier(r3)},
+			{Pkg: bm, Func: "ZZ_C17_Agree", Quick: tier(w2), Thorough: tier(w3)},
+			{Pkg: bm, Func: "ZZ_C17_AgreeConn", Quick: tier(map[string]int{"runlen": 3}), Thorough: tier(map[string]int{"runlen": 6})},
+		},
+		Assumptions: []string{
+			"ConnectedBitmask pre-states satisfy the canonical form: runs sorted, min<=max, disjoint and not touching (max+1 < next.min), values < 2^62",
+			"bit positions passed to Set/Flip/Inject of Long/Short masks are < 64*(words+2) (larger positions only allocate more zero words)",
+			"math/bits population count, leading and trailing zero counts are encoded as bit-vector terms (trusted)",
+		},
+		Outside: []string{"more words/runs than the stated parameter", "run bounds >= 2^62 (overflow of max+1)"},
+	}
 }
